@@ -323,6 +323,11 @@ def run_case(case):
            'codes': {SIR.SUSCEPTIBLE: 1, SIR.INFECTED: 2, SIR.REMOVED: 3}}
     if exc and (exc.startswith('Budget') or exc.startswith('OutOfScope')):
         obs['skipped'] = exc.split(':')[0]
+    obs['stats'] = {'additions': sum(1 for en in entries if en['fn'] == 'add'), 'deletions': sum(1 for en in entries if en['fn'] == 'delete'),
+                    'disease_events': sum(1 for en in entries if en['fn'] not in ('add', 'delete')),
+                    'draws_inside_add': len(obs['adraws']), 'redraws_inside_add': max(0, len(obs['adraws']) - case['c'] * sum(1 for en in entries if en['fn'] == 'add')),
+                    'runs_down_to_empty_network': int(bool(final) and not final.get('nodes') and bool(case['graph']['nodes'])),
+                    'dropped_out_of_scope': int(obs.get('skipped') == 'OutOfScope'), 'dropped_budget': int(obs.get('skipped') == 'Budget')}
     return obs
 
 
@@ -523,7 +528,7 @@ class H(Harness):
     ANCHOR_FILES = ['epydemic/adddelete.py', 'epydemic/process.py', 'epydemic/compartmentedmodel.py', 'epydemic/stochasticdynamics.py']
     TIE_IMPORT = 'From EpyV Require Import Model.Kernel Model.Loci Model.Compart Model.AddDelete Tie.C19.\nOpen Scope Q_scope.'
     CHECK_FN = 'EpyV.Tie.C19.check_case'
-    QUICK_N = 420
+    QUICK_N = 1000
     THOROUGH_N = 4000
     CASE_TIMEOUT = 20
     ALLOWED_AXIOMS = set()
